@@ -75,12 +75,18 @@ func (c *ContractModel) get(a int, name string) *Deployed {
 //   incompat  valid program, but the field type differs (update must be refused)
 //   syntax    does not parse
 func ctSource(name string, ver int, variant string) string {
+	// the declaration of the event changes with the version: an update may change an event's parameters (events are not stored)
+	ev, emit := "access(all) event Bumped(x: Int)", "emit Bumped(x: self.x)"
+	if ver%2 == 1 {
+		ev, emit = "access(all) event Bumped(tag: String, x: Int, ver: Int)", fmt.Sprintf(`emit Bumped(tag: "v%d", x: self.x, ver: %d)`, ver, ver)
+	}
 	body := fmt.Sprintf(`
+    %s
     access(all) var x: Int
     access(all) fun ver(): Int { return %d }
-    access(all) fun bump() { self.x = self.x + 1 }
+    access(all) fun bump() { self.x = self.x + 1; %s }
     init() { self.x = %d }
-`, ver, ver*10)
+`, ev, ver, emit, ver*10)
 	switch variant {
 	case "ok":
 		return fmt.Sprintf("access(all) contract %s {%s}", name, body)
@@ -96,7 +102,7 @@ func ctSource(name string, ver int, variant string) string {
 		return fmt.Sprintf("access(all) contract %s { access(all) var x: Int init( { self.x = %d } }", name, ver)
 	case "initfail":
 		// a valid program whose initializer aborts at run time: deploying it fails, updating to it is fine (initializers do not run on update)
-		return fmt.Sprintf("access(all) contract %s {\n    access(all) var x: Int\n    access(all) fun ver(): Int { return %d }\n    access(all) fun bump() { self.x = self.x + 1 }\n    init() { self.x = %d; if self.x >= 0 { panic(\"init of %s\") } }\n}", name, ver, ver*10, name)
+		return fmt.Sprintf("access(all) contract %s {\n    %s\n    access(all) var x: Int\n    access(all) fun ver(): Int { return %d }\n    access(all) fun bump() { self.x = self.x + 1; %s }\n    init() { self.x = %d; if self.x >= 0 { panic(\"init of %s\") } }\n}", name, ev, ver, emit, ver*10, name)
 	}
 	panic("harness: contract variant " + variant)
 }
@@ -262,6 +268,13 @@ func (m *Model) applyContracts(o Op, pr *Pred) (string, bool) {
 		pr.obs("ver", fmt.Sprintf("Int(%d)", cur.Ver))
 		cur.X++
 		pr.obs("x", fmt.Sprintf("Int(%d)", cur.X))
+		if cur.Variant == "ok" || cur.Variant == "enum" || cur.Variant == "initfail" {
+			if cur.Ver%2 == 1 {
+				pr.Events = append(pr.Events, fmt.Sprintf("A.%016x.%s.Bumped(tag: \"v%d\", x: Int(%d), ver: Int(%d))", o.A, o.S, cur.Ver, cur.X, cur.Ver))
+			} else {
+				pr.Events = append(pr.Events, fmt.Sprintf("A.%016x.%s.Bumped(x: Int(%d))", o.A, o.S, cur.X))
+			}
+		}
 	default:
 		return "", false
 	}
